@@ -47,7 +47,9 @@ type Unit struct {
 	Obj    *types.Func // for declared functions
 	Kids   []*Unit
 
-	g *Graph
+	g         *Graph
+	calls     []*Call
+	callsDone bool
 }
 
 func (u *Unit) Info() *types.Info { return u.Pkg.TypesInfo }
